@@ -432,7 +432,11 @@ def run_scenario(spec: dict) -> dict:
                     pacing["t0"], pacing["raw0"] = float(tc.perf_counter()).hex(), float(sched.now).hex()
 
                 def adjust_seen():
-                    r = orig_adjust()
+                    i0 = len(sched.trace)
+                    try:
+                        r = orig_adjust()
+                    finally:
+                        pacing.setdefault("adjust_spans", []).append([i0, len(sched.trace)])   # the events of the wait itself
                     pacing["after_adjust"].append(float(sched.now).hex())
                     pacing.setdefault("after_adjust_sys", []).append(float(tc.perf_counter()).hex())
                     return r
